@@ -20,6 +20,9 @@ PROP = 'C14'
 
 
 def draw_model(r):
+  if r.random() < 0.12:
+    # two independent subgraphs, one signature each (think prefill/decode)
+    return {'kind': 'gen2', 'seed': r.randrange(1 << 30), 'max_ops': r.randint(1, 4)}
   if r.random() < 0.65:
     return {'kind': 'gen', 'seed': r.randrange(1 << 30), 'max_ops': r.randint(1, 7),
             'bias': {'reshape': 1.6, 'transpose': 1.4, 'slice': 1.4, 'split': 1.4, 'pool': 1.6,
@@ -34,9 +37,18 @@ def generate(rseed, tier='quick'):
   specs = [modelgen.get_model(m)[0] for m in models]
   datasets = []
   for mi in range(n_models):
+    if models[mi]['kind'] == 'gen2':
+      for sig in (0, 1):
+        d = modelgen.draw_dataset_desc(r, mi, r.randint(1, 3))
+        d['sig'] = sig
+        datasets.append(d)
+      continue
     for _ in range(r.randint(1, 2)):
       datasets.append(modelgen.draw_dataset_desc(r, mi, r.randint(1, 4)))
   pools = [editgen.regex_pool(r, s, escape=models[i]['kind'] == 'corpus') for i, s in enumerate(specs)]
+  for i, m in enumerate(models):
+    if m['kind'] == 'gen2':
+      pools[i] = ['^g2/', '^g2/', '^(?!g2/)'] + pools[i]
   knobs = {
       'faults': r.random() < 0.75,
       'container': r.choice(['list', 'gen', 'iter', 're']),
@@ -132,6 +144,10 @@ def generate(rseed, tier='quick'):
         fault = {'kind': 'stream_fail', 'at': r.randint(0, hi - lo)}
       cid = 'c%d' % next_cid
       next_cid += 1
+      if models[mi]['kind'] == 'gen2':
+        ops.append({'op': 'synth_stats', 'q': q, 'out': cid})
+        calibs.append((cid, mi))
+        continue
       ops.append({'op': 'calibrate', 'q': q, 'data': di, 'lo': lo, 'hi': hi, 'prev': prev,
                   'fault': fault, 'out': cid})
       if fault is None:
@@ -147,8 +163,11 @@ def generate(rseed, tier='quick'):
           di = r.choice(ds)
           cid = 'c%d' % next_cid
           next_cid += 1
-          ops.append({'op': 'calibrate', 'q': q, 'data': di, 'lo': 0, 'hi': datasets[di]['n'],
-                      'prev': None, 'fault': None, 'out': cid})
+          if models[mi]['kind'] == 'gen2':
+            ops.append({'op': 'synth_stats', 'q': q, 'out': cid})
+          else:
+            ops.append({'op': 'calibrate', 'q': q, 'data': di, 'lo': 0, 'hi': datasets[di]['n'],
+                        'prev': None, 'fault': None, 'out': cid})
           calibs.append((cid, mi))
           mine = [(cid, mi)]
         if mine and (x < 0.86 or not knobs['faults']):
@@ -194,6 +213,39 @@ class Owned:
                     'caller-owned %s %s changed across %s' % (kind, name, call))
         return False
     return True
+
+
+def synth_stats(spec, mbytes, datasets_by_sig):
+  """Min/max of every runtime tensor of every signature, measured with the harness's own
+  interpreter. Public-API calibration of a multi-subgraph model is not usable on this tree for
+  operators outside subgraph 0 (C10's business), so users of such models hand statistics in."""
+  import numpy as np
+  from ai_edge_litert import interpreter as tfl
+  it = tfl.Interpreter(model_content=bytes(mbytes),
+                       experimental_op_resolver_type=tfl.OpResolverType.BUILTIN_WITHOUT_DEFAULT_DELEGATES,
+                       experimental_preserve_all_tensors=True)
+  it.allocate_tensors()
+  out = {}
+  for k, (sp, key) in enumerate(zip(spec.specs, spec.sig_keys)):
+    runner = it.get_signature_runner(key)
+    lo, hi = {}, {}
+    for sample in datasets_by_sig.get(k, []):
+      runner(**sample)
+      for i, t in enumerate(sp.tensors):
+        if t['data'] is not None or t['dtype'] != 'f':
+          continue
+        try:
+          v = it.get_tensor(i, subgraph_index=k)
+        except ValueError:
+          continue
+        if v.size == 0:
+          continue
+        lo[t['name']] = min(lo.get(t['name'], np.inf), float(np.min(v)))
+        hi[t['name']] = max(hi.get(t['name'], -np.inf), float(np.max(v)))
+    for name in lo:
+      out[name] = {'min': np.array(lo[name], dtype=np.float32).reshape([1] * 1),
+                   'max': np.array(hi[name], dtype=np.float32).reshape([1] * 1)}
+  return out
 
 
 def signature_key(mbytes):
@@ -363,6 +415,22 @@ def execute(doc):
         owned.add('calib:' + op['out'], ret, 'calibration-result')
         rec.event(step, 'calibrate', 'returned', core.digest(ret))
       call = 'calibrate()'
+    elif kind == 'synth_stats':
+      Q = qs.get(op['q'])
+      if Q is None:
+        continue
+      spec, mbytes = models[Q['model']]
+      if not getattr(spec, 'multi', False):
+        continue
+      by_sig = {}
+      for di, d in enumerate(world['datasets']):
+        if d['model'] == Q['model']:
+          by_sig.setdefault(d.get('sig', 0), datasets[di])
+      ret = synth_stats(spec, mbytes, by_sig)
+      calibs[op['out']] = {'obj': ret, 'pristine': pickle.dumps(ret, protocol=4), 'model': Q['model']}
+      owned.add('calib:' + op['out'], ret, 'calibration-result')
+      rec.probe('multi_signature_stats')
+      rec.event(step, 'synth_stats', 'ok', core.digest(ret))
     elif kind == 'quantize':
       Q = qs.get(op['q'])
       if Q is None:
@@ -418,7 +486,12 @@ def execute(doc):
         continue
       td = None
       if op.get('data') is not None and op['data'] < len(datasets):
-        key = signature_key(models[Q['model']][1])
+        mspec = models[Q['model']][0]
+        if getattr(mspec, 'multi', False):
+          key = mspec.sig_keys[world['datasets'][op['data']].get('sig', 0)]
+          rec.probe('validate_secondary_signature' if key != mspec.sig_keys[0] else 'validate_primary_signature')
+        else:
+          key = signature_key(models[Q['model']][1])
         if key is not None:
           td = {key: datasets[op['data']]}
           owned.add('testdata@%d' % step, td, 'test-data')
